@@ -42,7 +42,7 @@ pub static SPEC: Spec = Spec {
 pub static SPEC_C07: Spec = Spec {
     id: "C07",
     level: "fault_enumeration",
-    fixed_cases: |t| n_chunks07(t) + directed().len() as u64 + crate::props::c02r::N_REPLICA_FIXED,
+    fixed_cases: |t| n_chunks07(t) + directed_for(true).len() as u64 + crate::props::c02r::N_REPLICA_FIXED,
     random_secs: |t| t.pick(15, 240),
     random_cap: |t| t.pick(100_000, 3_000_000),
     run_case: |ctx, id| run_case(ctx, id, Mode::Tear { random_cuts: if ctx.tier == Tier::Quick { 8 } else { 64 } }),
@@ -81,6 +81,10 @@ fn n_chunks07(t: Tier) -> u64 {
 }
 
 fn directed() -> Vec<Vec<Op>> {
+    directed_for(false)
+}
+
+fn directed_for(tear: bool) -> Vec<Vec<Op>> {
     let mut v = vec![];
     let a = |t: u32| Op::Append(t, 5 + t % 3);
     // reopen with 1..3 unflushed entries, then each kind of next op (crash points after reopen)
@@ -116,6 +120,11 @@ fn directed() -> Vec<Vec<Op>> {
     }
     // second header slot current when the next flush happens (5 ops => two flushes)
     v.push(vec![a(1), a(2), a(3), a(4), a(5), a(6), Op::Reopen, a(7), a(8), a(9), a(10), a(11), Op::MakeReadOnly]);
+    // an entry above 64 KiB forces a flush by size outside the every-fourth-operation rhythm
+    // (crash mode only: with ~2000 tree writes the tear mode would multiply it by dozens of cuts)
+    if !tear {
+        v.push(vec![a(1), a(2), Op::Batch((0..900).map(|i| (1000 + i, 2)).collect()), a(3), Op::Reopen, a(4)]);
+    }
     // big single entry forcing a flush by size
     v.push(vec![a(1), Op::Batch((0..40).map(|i| (100 + i, 3)).collect()), a(2), Op::Reopen, a(3)]);
     v
@@ -170,7 +179,7 @@ fn run_case(ctx: &mut Ctx, id: u64, mode: Mode) {
         }
         return;
     }
-    let d = directed();
+    let d = directed_for(is07);
     let di = (id - nch) as usize;
     if di < d.len() {
         ctx.count("directed_histories");
